@@ -1,0 +1,25 @@
+#ifndef sodium_private_verif_H
+#define sodium_private_verif_H
+
+/*
+ * Verification hooks. Compiled in only with -DSODIUM_VERIF; without it this
+ * header defines nothing and the library is unchanged.
+ *
+ * _sodium_verif_hook is NULL unless a test harness installs a callback. It is
+ * called as hook(kind, a, b) at the points listed in /verif/DESIGN.md:
+ *   ("init", step, "")        inside sodium_init(), while the init lock is held
+ *   ("pick", primitive, impl) whenever a *_pick_best_implementation() selects
+ */
+#ifdef SODIUM_VERIF
+typedef void (*sodium_verif_hook_fn)(const char *kind, const char *a,
+                                     const char *b);
+extern sodium_verif_hook_fn _sodium_verif_hook;
+# define SODIUM_VERIF_EVENT(K, A, B)              \
+    do {                                          \
+        if (_sodium_verif_hook != NULL) {         \
+            _sodium_verif_hook((K), (A), (B));    \
+        }                                         \
+    } while (0)
+#endif
+
+#endif
